@@ -158,9 +158,9 @@ mutual
           | .arr (q :: qs) => listReasons (q :: qs) d
           | _ => ["malformed"])
        else if key.startsWith "$" then ["malformed"]
-       else if !keyOk key then ["badkey"]
        else
-         -- where the matcher follows the path it reaches exactly `reach` (`cands_eq_reach`)
+         -- where the matcher follows the path (it gives up only on a negative array index) it
+         -- reaches exactly `reach` (`cands_eq_reach`); empty components are field names
          (match cands (splitDots key) d with
           | .ok _ => []
           | .error _ => ["badkey"]) ++ condReasons c (reach (splitDots key) d))
